@@ -425,6 +425,16 @@ func main() {
 	default:
 		fatal(2, "unknown mode %s", mode)
 	}
+	if only := os.Getenv("VERIF_ONLY"); only != "" { // experimentation knob (never set by the registered commands): plain,race,auto,auto-race
+		var keep []phase
+		for _, ph := range phases {
+			tag := map[[2]bool]string{{false, false}: "plain", {true, false}: "race", {false, true}: "auto", {true, true}: "auto-race"}[[2]bool{ph.Race, ph.Auto}]
+			if strings.Contains(","+only+",", ","+tag+",") {
+				keep = append(keep, ph)
+			}
+		}
+		phases = keep
+	}
 	if s := os.Getenv("VERIF_BUDGET_SCALE"); s != "" {
 		if f, err := strconv.ParseFloat(s, 64); err == nil && f > 0 {
 			for i := range phases {
